@@ -25,6 +25,7 @@ import (
 	"verif/internal/gen"
 	"verif/internal/hooks"
 	"verif/internal/model"
+	"verif/internal/sched"
 	"verif/internal/simfs"
 )
 
@@ -35,6 +36,7 @@ type Workload struct {
 	SegSize int      `json:"seg_size"`
 	Ops     []gen.Op `json:"ops"`
 	Profile string   `json:"profile"`
+	Pending bool     `json:"pending_rotation_mode,omitempty"`
 }
 
 // Point is one crash point: a snapshot plus what the oracle knows there.
@@ -99,6 +101,7 @@ type runState struct {
 	stable   atomic.Pointer[model.Stable]
 	rotating atomic.Pointer[wal.WAL] // the WAL whose rotation goroutine is doing I/O, if any
 	cur      atomic.Pointer[wal.WAL] // the session's current WAL
+	trigOp   atomic.Int64            // opIdx during which the last rotation was triggered
 	hadTrunc atomic.Bool
 }
 
@@ -138,10 +141,15 @@ func (r *recorder) take(d *simfs.Disk, c simfs.Call) {
 			// The rotation goroutine can only do I/O after StoreLogs released the
 			// write lock on its way to returning nil: the append is acknowledged.
 			p.Phase = "rotate"
-			if a := rs.after.Load(); a != nil {
-				p.Base = a
+			if rs.trigOp.Load() == rs.opIdx.Load() {
+				if a := rs.after.Load(); a != nil {
+					p.Base = a
+				}
+				p.InFlight = nil
 			}
-			p.InFlight = nil
+			// else (pending-rotation mode): the rotation belongs to an earlier, already
+			// acknowledged call and runs while the current call waits for it; the current
+			// call stays "in flight" (it has done no I/O of its own yet: a superset)
 		}
 		if p.InFlight != nil && (p.InFlight.Kind == "set" || p.InFlight.Kind == "setu64") {
 			p.StableInFlight = p.InFlight
@@ -160,6 +168,7 @@ type Params struct {
 	VariantBudget int    // per point at depth 1 (<=0 unlimited)
 	NestedBudget  int    // variants per nested point
 	NestedPoints  int    // how many nested points per recovery are explored (<=0: all)
+	NestedEvery   int    // nest only every n-th depth-1 image (<=1: all)
 	ExhaustiveMax int    // enumerate all subsets when pending pieces <= this
 	PointStride   int    // explore every n-th non-critical point (1 = all)
 	Workers       int
@@ -195,6 +204,11 @@ func installRotationListener() {
 				return
 			}
 			switch point {
+			case "rotate.triggered":
+				if rs, ok := rotStates.Load(w); ok {
+					r := rs.(*runState)
+					r.trigOp.Store(r.opIdx.Load())
+				}
 			case "rotate.received":
 				if rs, ok := rotStates.Load(w); ok {
 					rs.(*runState).rotating.Store(w)
@@ -286,6 +300,21 @@ func (e *Engine) RunWorkload(wl *Workload) {
 	l := model.NewLog()
 	batch := 0
 	goldenOK := true
+	// a third of the workloads run in pending-rotation mode: the background rotation is
+	// held queued (write lock not taken) so that the next call, or Close, gets in first;
+	// it runs when that call starts waiting for it, or when the driver releases it
+	pend := wl.ID%3 == 1 && len(e.P.Only) == 0 || wl.Pending
+	wl.Pending = pend
+	var gate *sched.RotGate
+	if pend {
+		gate = sched.NewRotGate(s.w)
+		c.Count("pending_rotation_workloads", 1)
+	}
+	defer func() {
+		if gate != nil {
+			gate.Close()
+		}
+	}()
 	for i, op := range wl.Ops {
 		op := op
 		rs.opIdx.Store(int64(i))
@@ -293,7 +322,14 @@ func (e *Engine) RunWorkload(wl *Workload) {
 		if op.Kind == "reopen" {
 			rs.base.Store(l)
 			rs.inflight.Store(nil)
+			if gate != nil && gate.Holding() {
+				c.Count("closes_with_rotation_pending", 1)
+			}
 			s.close()
+			if gate != nil {
+				gate.Close()
+				gate = nil
+			}
 			rs.base.Store(nil)
 			cands := l.DropTrailingUnacked()
 			rs.outer.Store(&cands)
@@ -301,6 +337,9 @@ func (e *Engine) RunWorkload(wl *Workload) {
 				e.report(&failure{props: []string{"C03", "C01", "C05"}, class: "golden-reopen-failed", desc: fmt.Sprintf("clean reopen failed at op %d: %v", i, err)}, replay(nil))
 				goldenOK = false
 				break
+			}
+			if pend {
+				gate = sched.NewRotGate(s.w)
 			}
 			continue
 		}
@@ -319,7 +358,16 @@ func (e *Engine) RunWorkload(wl *Workload) {
 			}
 		}
 		rs.inflight.Store(&op)
-		res := drv.Apply(s.w, op)
+		var res drv.Result
+		if gate == nil {
+			res = drv.Apply(s.w, op)
+		} else {
+			res = drv.ApplyNoWait(s.w, op)
+			if gate.Holding() && rng.Intn(2) == 0 {
+				gate.Release()
+				res.Quiesced = hooks.WaitRotation(s.w, drv.Watchdog)
+			}
+		}
 		if !res.Quiesced {
 			c.Inconclusive("workload %d op %d: rotation did not finish within the watchdog", wl.ID, i)
 			goldenOK = false
@@ -365,11 +413,20 @@ func (e *Engine) RunWorkload(wl *Workload) {
 		rs.inflight.Store(nil)
 		rs.after.Store(nil)
 		// cheap in-process sanity: first/last (full differential checking is C05's job)
+		gprops := []string{"C05"}
+		if rs.hadTrunc.Load() {
+			gprops = append(gprops, "C04") // an acknowledged DeleteRange did not stay applied
+		}
 		if f, _ := s.w.FirstIndex(); f != l.First {
-			e.report(&failure{props: []string{"C05"}, class: "golden-first", desc: fmt.Sprintf("after op %d %s FirstIndex=%d want %d", i, op, f, l.First)}, replay(nil))
+			e.report(&failure{props: gprops, class: "golden-first", desc: fmt.Sprintf("after op %d %s (pending-rotation mode %v) FirstIndex=%d want %d", i, op, pend, f, l.First)}, replay(nil))
+			goldenOK = false
 		}
 		if la, _ := s.w.LastIndex(); la != l.Last {
-			e.report(&failure{props: []string{"C05"}, class: "golden-last", desc: fmt.Sprintf("after op %d %s LastIndex=%d want %d", i, op, la, l.Last)}, replay(nil))
+			e.report(&failure{props: gprops, class: "golden-last", desc: fmt.Sprintf("after op %d %s (pending-rotation mode %v) LastIndex=%d want %d", i, op, pend, la, l.Last)}, replay(nil))
+			goldenOK = false
+		}
+		if !goldenOK {
+			break
 		}
 		// C13 at quiescence
 		if f := checkListing(disk); f != nil {
@@ -379,6 +436,10 @@ func (e *Engine) RunWorkload(wl *Workload) {
 	}
 	rs.base.Store(l)
 	rs.inflight.Store(nil)
+	if gate != nil {
+		gate.Release()
+		hooks.WaitRotation(s.w, drv.Watchdog)
+	}
 	s.close()
 	disk.SetHook(nil)
 	for _, v := range disk.IDViolations {
@@ -570,6 +631,9 @@ func (e *Engine) checkRecovery(wl *Workload, pt *Point, v simfs.Variant, img *si
 	}
 
 	// nesting
+	if rec != nil && e.P.NestedEvery > 1 && len(e.P.Only) == 0 && rng.Intn(e.P.NestedEvery) != 0 {
+		rec = nil
+	}
 	if rec != nil {
 		s.close()
 		img.SetHook(nil)
